@@ -285,6 +285,11 @@ class MinMaxAggregator:
 
         body = []
         var_x = Variable(LOC, "X")
+        used_names = {var.name for lit in chain(rest_vars, lits_with_vars) for var in collect_ast(lit, "Variable")}
+        counter = 0
+        while var_x.name in used_names:  # X may already be a variable of the rule
+            var_x = Variable(LOC, f"X{counter}")
+            counter += 1
 
         body.append(
             Literal(
@@ -426,6 +431,8 @@ class MinMaxAggregator:
                 rest_vars.update(inside_variables.intersection(collect_ast(t, "Variable")))
         # variables that are used inside but also outside of the aggregate
         rest_vars_sorted: list[AST] = sorted(rest_vars)
+        if {NEXT.name, PREV.name}.intersection(var.name for var in collect_ast(rule, "Variable")):
+            return [rule]  # the generated rules use these variables themselves
 
         self.domain_predicates.add_domain_rule(
             Predicate(new_name, 1), [(head, list(chain(elem.condition, lits_with_vars)))]
@@ -631,6 +638,9 @@ class MinMaxAggregator:
                 rest_cond.append(cond)
         assert oldmax is not None
 
+        if {NEXT.name, PREV.name}.intersection(var.name for var in collect_ast(stm, "Variable")):
+            return [stm]  # the replacement uses these variables itself
+
         # the result variable is replaced by the chain variables, it can not be used anywhere else
         for other in chain(rest_cond, [stm.priority], stm.terms):
             if varname in map(lambda x: x.name, collect_ast(other, "Variable")):
@@ -720,6 +730,9 @@ class MinMaxAggregator:
         else:
             log.info(f"Cannot optimize {loc2str(term_tuple[0].location)} as the weight is not simple enough.")
             return [elem]
+
+        if {NEXT.name, PREV.name}.intersection(var.name for var in collect_ast(elem, "Variable")):
+            return [elem]  # the replacement uses these variables itself
 
         # the result variable is replaced by the chain variables, it can not be used anywhere else
         for other in chain(rest_cond, term_tuple[1:]):
